@@ -902,6 +902,13 @@ impl<S: BitmapSlice + Send + Sync> FileSystem for PassthroughFs<S> {
 
         if self.seal_size.load(Ordering::Relaxed) {
             let st = stat_fd(&*f, None)?;
+            // In append mode (check_fd_flags() has just applied the request's flags to the fd)
+            // the data lands at the end of the file, whatever `offset` says.
+            let offset = if flags & (libc::O_APPEND as u32) != 0 {
+                st.st_size as u64
+            } else {
+                offset
+            };
             self.seal_size_check(Opcode::Write, st.st_size as u64, offset, size as u64, 0)?;
         }
 
